@@ -14,7 +14,7 @@ PROPERTY = "C46"
 LEVEL = "exploration"
 RULE = ("case = one generated run written by the real TiledWriter into an in-process Tiled server (tiled.catalog.in_memory + "
         "duckdb + Context.from_app): 1-3 streams with scalar / string / small-array data keys, 0-9 events per stream "
-        "delivered as events or event_pages in a seeded interleaving, optionally one external HDF5 data key (file written "
+        "delivered as events or event_pages in a seeded interleaving, streams re-described in mid-run (second descriptor, same name), optionally one external HDF5 data key (file written "
         "with h5py; stream_datums of width 1-3 frames), start metadata incl. nested values and integers beyond 2^53, "
         "batch_size in {0,1,2,3,7,10000}; after the RunStop: the run's container metadata 'start' and 'stop' equal the "
         "documents (modulo truncate_json_overflow / JSON round trip), each stream's internal table has one row per event in "
@@ -22,7 +22,8 @@ RULE = ("case = one generated run written by the real TiledWriter into an in-pro
         "stream_datum index widths; distinct = (stream layout, batch size class, external y/n, paging)")
 ASSUMPTIONS = ["in-process Tiled 0.2.18 is the store under test's counterpart and is trusted (it returns list-valued columns as "
                "their numpy string form, which is accepted)", "floats compared exactly, arrays element-wise"]
-REQUIRED_COUNTERS = {"runs_written": 40, "rows_checked": 150, "external_arrays_checked": 10, "batch_boundary_runs": 15}
+REQUIRED_COUNTERS = {"runs_written": 40, "rows_checked": 150, "external_arrays_checked": 10, "batch_boundary_runs": 15,
+                     "redescribed_streams": 8}
 SHARD_TIMEOUT = {"quick": 1500, "thorough": 7200}
 MANIFEST = {
     "technique": "end-to-end read-back oracle: generated runs written by the real TiledWriter to an in-process Tiled server "
@@ -119,12 +120,25 @@ def run_case(case):
             sent.append(("stream_resource", sres.stream_resource_doc))
         order = [nm for nm in names for _ in range(counts[nm])]
         rng.shuffle(order)
+        # a stream may be re-described in mid-run (same name and keys, new uid - what a 'configure' does): its rows continue
+        redescribe_at = {nm: rng.randint(1, counts[nm] - 1) for nm in names
+                         if counts[nm] >= 2 and rng.random() < 0.4 and not (external and nm == "primary")}
+        redescribed = 0
         pending_pages = {nm: [] for nm in names}
         emitted_frames = 0
         pending_frames = 0
         for nm in order:
             b, dks = descs[nm]
-            k = len(rows[nm]) + sum(1 for _ in pending_pages[nm]) if False else None
+            if redescribe_at.get(nm) == len(rows[nm]):
+                if pending_pages[nm]:
+                    sent.append(("event_page", pack_event_page(*pending_pages[nm])))
+                    pending_pages[nm] = []
+                b = run.compose_descriptor(name=nm, data_keys=dks, object_keys={"det": list(dks)},
+                                           configuration={"det": {"data": {"gain": 2}, "timestamps": {"gain": 1.0},
+                                                                  "data_keys": {"gain": {"dtype": "number", "shape": [], "source": "c"}}}})
+                descs[nm] = (b, dks)
+                sent.append(("descriptor", b.descriptor_doc))
+                redescribed += 1
             data, ts = {}, {}
             seq = len(rows[nm]) + 1
             for key in dks:
@@ -172,7 +186,7 @@ def run_case(case):
         stop = run.compose_stop()
         sent.append(("stop", stop))
         problems = []
-        counters = {"runs_written": 1, "rows_checked": 0, "external_arrays_checked": 0,
+        counters = {"runs_written": 1, "rows_checked": 0, "external_arrays_checked": 0, "redescribed_streams": redescribed,
                     "batch_boundary_runs": int(batch in (2, 3, 7) and any(c > batch for c in counts.values()))}
         try:
             import copy
